@@ -153,6 +153,45 @@ def fam_wm(ctx):
     ctx.cov.setdefault("deviation_switches", {}).update(dict(ctx.par(one, WM_SWITCHES, workers=4)))
 
 
+SKL_SWITCHES = ["BugDeleteLevel1Only", "BugNoReplaceTomb", "BugRawCompare"]
+
+
+def skl_cfg(k, t, ml, mo, on=(), export=False):
+    kw = dict(K=k, T=t, MAXLEVEL=ml, MAXOPS=mo, EXPORT="CONSTRAINT Export" if export else "")
+    for s in SKL_SWITCHES:
+        kw[s] = T if s in on else F
+    return tlc.fill("MC_Skiplist.cfg.tmpl", **kw)
+
+
+def fam_skl(ctx):
+    """Skiplist.tla: explicit towers, every height choice; the five invariants in every state.
+    Returns the list of exported replays (one per generated transition)."""
+    bounds = [(2, 2, 2, 3)] if ctx.quick else [(2, 2, 2, 4), (2, 2, 3, 3)]
+    replays = []
+    for b in bounds:
+        r = ctx.model_check("Skiplist", skl_cfg(*b, export=True), timeout=3000, workers=8)
+        expect_ok(ctx, r, "Skiplist %s" % (b,))
+        lines = []
+        for ln in r["out"].splitlines():
+            if ln.startswith('<<"REPLAY", "'):
+                body = ln[len('<<"REPLAY", "'):-len('">>')]
+                lines.append(body.replace('\\"', '"').replace("\\\\", "\\"))
+        replays.append((b, lines))
+    if not ctx.quick:
+        r = ctx.model_check("Skiplist", skl_cfg(2, 3, 3, 4), timeout=3000)
+        expect_ok(ctx, r, "Skiplist (2,3,3,4)")
+    ctx.cov.setdefault("model_bounds", {})["Skiplist(keys,versions,maxLevel,ops)"] = bounds
+
+    def one(s):
+        rr = ctx.model_check("Skiplist", skl_cfg(2, 2, 2, 5, on=(s,)), timeout=900, expect_violation=True, workers=4)
+        expect_violation(ctx, rr, s)
+        m = re.findall(r"Invariant (\w+) is violated", rr["out"])
+        return s, (m[0] if m else "violated")
+
+    ctx.cov.setdefault("deviation_switches", {}).update(dict(ctx.par(one, SKL_SWITCHES, workers=3)))
+    return replays
+
+
 FAMILIES = {"wm": fam_wm, "txn": fam_txn, "crash": fam_crash, "crash_torn": lambda ctx: fam_crash(ctx, torn=True)}
 
 
